@@ -361,6 +361,11 @@ def gen_api_cases(ctx, rng, quick):
     if not quick:
         specs += [(60, 4, 2, 3, 10.0, 0.5), (60, 4, 2, 4, 8.0, 0.0), (45, 2, 2, 3, 14.0, 0.2), (30, 3, 3, 2, 5.0, 0.0),
                   (40, 2, 2, 2, 6.0, 1.0), (90, 5, 2, 3, 20.0, 0.5)]
+    # coincident samples: all identical (centred data is all zero: F43), and two groups of identical samples
+    for (N, theta) in [(10, 0.5), (8, 0.0)]:
+        v = [rng.randint(-3, 3) + 0.5 for _ in range(2)]
+        cases.append({"kind": "API", "X": [[fl(x) for x in v] for _ in range(N)], "labels": [0] * N, "d": 2,
+                      "perp": fl(2.0), "theta": fl(theta), "seed": rng.randint(1, 10 ** 6)})
     for (N, D, d, nc, perp, theta) in specs:
         pts, lab = gen_clusters(rng, N, D, nc, 8.0)
         cases.append({"kind": "API", "X": [[fl(x) for x in p] for p in pts], "labels": lab, "d": d,
@@ -459,13 +464,13 @@ def entropy(row):
     return -sum(p * math.log(p) for p in row if p > 0)
 
 
-def check_cond_row(row, dd, others, perplexity, feasible=True):
+def check_cond_row(row, dd, others, perplexity, feasible=True, extra_mass=0.0):
     """spec of one conditional row over the index set `others` (positions into row/dd).
     returns None or a reason string."""
     vals = [row[j] for j in others]
     if any((v is None) or not (v >= 0.0) or math.isinf(v) for v in vals):
         return "entry not a finite non-negative number"
-    s = sum(vals)
+    s = sum(vals) + extra_mass
     if (feasible and abs(s - 1.0) > 1e-9) or not (s <= 1.0 + 1e-9):
         return "row sums to %r, not 1" % s
     if feasible:
@@ -699,12 +704,17 @@ def check_one(ctx, c, payload, mout, post, i, gb_err, ci):
         for n in range(N):
             dd = [sum((a - b) ** 2 for a, b in zip(X[n], X[m])) for m in range(N)]
             row = P[n * N:(n + 1) * N]
-            if not (row[n] is not None and 0 <= row[n] < 1e-100):
+            # attainability of the target entropy in binary64 is decided by the transliterated loop: near-ties
+            # at the nearest distance need a beta at which every kernel value underflows
+            found, mrow, _ = perp_row_mirror(dd, n, perp)
+            # P[n,n] = DBL_MIN / sum_P: negligible unless every kernel value is in the denormal range; a sample
+            # counted as its own neighbour would get the LARGEST entry of its row (>= 1/N)
+            if not (row[n] is not None and 0 <= row[n] < min(1e-3, 0.1 / N)):
                 return ("violation", "P[%d,%d] = %r: a sample must not be its own neighbour" % (n, n, row[n]))
-            why = check_cond_row(row, dd, [m for m in range(N) if m != n], perp)
+            why = check_cond_row(row, dd, [m for m in range(N) if m != n], perp, feasible=found and row[n] < 1e-12,
+                                 extra_mass=row[n])
             if why:
                 return ("violation", "dense conditional similarities, row %d: %s" % (n, why))
-            found, mrow, _ = perp_row_mirror(dd, n, perp)
             if found:
                 for m in range(N):
                     if abs(mrow[m] - row[m]) > 1e-6 * max(mrow[m], row[m], 1e-12) + 1e-14:
@@ -885,20 +895,19 @@ def check_pk(ctx, c, payload, post):
         cols = col[n * K:(n + 1) * K]
         vals = val[n * K:(n + 1) * K]
         dd = [sq[n][m] / float(L * L) for m in cols]
-        # feasibility of the target entropy: as beta -> inf the row tends to uniform over the t nearest ties
-        dmin = min(sq[n][m] for m in cols) if cols else 0
-        t = sum(1 for m in cols if sq[n][m] == dmin)
-        feasible = t < 0.9 * perp and K > perp * 1.05
-        why = check_cond_row(vals, dd, list(range(K)), perp, feasible=feasible)
+        # attainability of the target entropy (ties at the nearest distance: the row tends to uniform over them)
+        # is decided by the transliterated loop
+        found, mrow, _ = perp_row_mirror(dd, None, perp)
+        # DBL_MIN guard: when every kernel value is in the denormal range the row sums to 1 - DBL_MIN/sum_P < 1
+        clean = found and abs(sum(mrow) - 1.0) <= 1e-12
+        why = check_cond_row(vals, dd, list(range(K)), perp, feasible=clean)
         if why:
             return ("violation", "Barnes-Hut conditional similarities, row %d (neighbours %s): %s" % (n, cols[:12], why))
-        if feasible:
-            found, mrow, _ = perp_row_mirror(dd, None, perp)
-            if found:
-                for m in range(K):
-                    if abs(mrow[m] - vals[m]) > 1e-6 * max(mrow[m], vals[m], 1e-12) + 1e-14:
-                        return ("mismatch", "K-NN row %d entry %d: implementation %r, transliterated model %r" % (
-                            n, m, vals[m], mrow[m]))
+        if found:
+            for m in range(K):
+                if abs(mrow[m] - vals[m]) > 1e-6 * max(mrow[m], vals[m], 1e-12) + 1e-14:
+                    return ("mismatch", "K-NN row %d entry %d: implementation %r, transliterated model %r" % (
+                        n, m, vals[m], mrow[m]))
     line = "KN 0 %d %d %s %s" % (N, K, " ".join(str(v) for r in sq for v in r),
                                  " ".join("| " + " ".join(str(a) for a in col[n * K:(n + 1) * K]) for n in range(N)))
 
@@ -1009,8 +1018,8 @@ def run(ctx):
         trusted_base=TRUSTED,
         assumptions=["perplexity in (1, (N-1)/3], theta in [0,1], finite feature values",
                      "exact streams: dyadic coordinates (binary64 arithmetic exact), N a power of two where a mean is taken",
-                     "entropy clause checked only on rows where the target is attainable (fewer than 0.9*perplexity samples "
-                     "tie at the nearest distance; K > perplexity)",
+                     "entropy clause checked only on rows where the target is attainable in binary64 (the transliterated "
+                     "bisection reaches |H - log perplexity| < 1e-5 within 200 steps; (near-)ties at the nearest distance do not)",
                      "no coincident samples in the neighbour-set streams (see bh_row_coincident_refuted)"],
         extra={"traces_validated_against_impl": n})
 
